@@ -125,4 +125,19 @@ PROPS = {
                                      "what Decrypt makes of a presented string is taken from the real AES code (oracle); the theorems hold for ANY plaintext"],
         "assumptions": ["token ids are unique in the storage (fresh counters)"],
     },
+    "C10": {
+        "proof_module": "OidcModel.Proofs.C10",
+        "theorems": ["C10.c10_all_call_sites_checked", "C10.c10_fail_closed", "C10.c10_success_needs_all", "C10.runCalls_error_of_fails"],
+        "cases": {"quick": 0, "thorough": 0},
+        "rule": "fault enumeration: for each of 15 flows (authorize, callback code / implicit, token endpoint x 6 grants, device_authorization, userinfo, introspection, "
+                "revocation, end_session, keys) on both routers, learn the journal length n of the fault-free request, then re-run it from a fresh provider with the k-th "
+                "storage call failing for EVERY k = 1..n+1 and each error kind (plain error, context.DeadlineExceeded, oidc.Error); quick = 2 request variants, thorough = 12 "
+                "(public / confidential client, opaque / JWT access tokens, scope sets, SetUserinfoFromRequest capability); non-trivial = a fault that hit a call; distinct = flow x router x failed method x status",
+        "trivial_class": r".*:beyond:.*",
+        "exhaustive": {"quick": True, "thorough": True},
+        "trusted_base": ["the call-site extractor of factgen (storagecalls.go): which statements count as 'the error is examined' (next statement tests or returns it)",
+                         "the abstract handler model (sequence of calls in the Except monad) is connected to the code only through that extracted fact list and the fault enumeration",
+                         "refstore journal + k-th-call fault injection"],
+        "assumptions": ["introspection's required answer to a storage failure is 'not active' (the code answers 200 {active:false})"],
+    },
 }
